@@ -390,7 +390,9 @@ func (g *treeGen) num() any {
 
 func (g *treeGen) tree(depth int) any {
 	if depth <= 0 || g.r.Intn(3) == 0 {
-		switch g.r.Intn(8) {
+		switch g.r.Intn(9) {
+		case 8:
+			return "" // what OmitEmpty drops (and OmitNil must not)
 		case 0:
 			return nil
 		case 1:
